@@ -185,7 +185,10 @@ func oracle(in *ctl.Inst, r *vs.Result) []string {
 			}
 			ver[key] = v
 		}
-		if o.ReadySeen && !o.DoneAtRead {
+		if o.NodeDone[n.Path] && !o.DoneAtRead {
+			msgs = append(msgs, fmt.Sprintf("subscriber disconnected while the controller runs | %s: Done() of subscription %s is closed, the controller's is not; events %v", desc, n.Path, n.Received))
+		}
+		if o.ReadySeen && !o.DoneAtRead && in.C.Bufsiz == 0 {
 			if got := hx.MirrorTolerant(o.ReadyList, n.Received); got != o.CacheAtRead {
 				msgs = append(msgs, fmt.Sprintf("subscriber events do not account for the cache | %s: content at readiness %s + events %v = %s, cache holds %s", desc, o.ReadyList, n.Received, got, o.CacheAtRead))
 			}
@@ -216,7 +219,7 @@ func Property() runner.Property {
 			W := func(k string, after int) fakeapi.WatchFault { return fakeapi.WatchFault{Kind: k, After: after} }
 			mk := func(name string, c ctl.Cfg) runner.Sc {
 				c.Name, c.Period, c.Tree, c.Mode, c.Bound = name, P, sub, "S2", d
-				if c.Bufsiz > 0 {
+				if c.Bufsiz > 0 && !strings.HasSuffix(name, "+subscriber") {
 					c.Tree = nil
 				}
 				if c.ReadAt == 0 {
@@ -259,6 +262,8 @@ func Property() runner.Property {
 			out = append(out, mk("overflow/bufsiz1/slow-filter+burst4", ctl.Cfg{Pre: pre, Hist: burst, Bufsiz: 1, SlowOn: "a", ReadAt: 12 * time.Second}))
 			ov := mk("overflow/bufsiz1/burst4", ctl.Cfg{Pre: pre, Hist: burst, Bufsiz: 1})
 			out = append(out, ov)
+			// the same with a subscriber: it legitimately misses events, but it stays subscribed while the controller runs
+			out = append(out, mk("overflow/bufsiz1/burst4+subscriber", ctl.Cfg{Pre: pre, Hist: burst, Bufsiz: 1}))
 			if tier == "thorough" {
 				out = append(out,
 					mk("watch-bookmark@0/h4", ctl.Cfg{Filter: 2, Pre: pre, Hist: h, WatchFaults: map[int]fakeapi.WatchFault{1: W("bookmark", 0)}}),
